@@ -627,6 +627,10 @@ def apply(st, ev):
         for rec in st.stops:
             # a restart requested before the stop finished supersedes its deadline for the waiters
             rec.waiters = []
+        if not st.stops:
+            # no stop is in progress any more: from now on a failure needs the waiter's own limit or a new stop
+            for w in st.waiters:
+                w.stop_seen = False
         st.guarded("startService", st.svc.startService)
     elif op == "stop":
         st.guarded("stopService", st.do_stop)
